@@ -2,6 +2,7 @@ import TexelVerif.Chess.GenCheck
 import TexelVerif.Chess.Geometry
 import TexelVerif.Chess.Line
 import TexelVerif.Chess.TexelGen
+import TexelVerif.Chess.TexelGenMore
 import TexelVerif.Drv.Util
 /-! Line protocol for the chess specification (properties C01, C02, C17 …). -/
 namespace Drv.Chess
@@ -64,12 +65,15 @@ def showBits (l : List Bool) : String := if l.isEmpty then "-" else String.join 
 def joinSecs (l : List String) : String := " ".intercalate (l.filter fun s => s != "")
 
 /-- the model of Texel's generator run on one position: same line as the harness op `chess tmg` -/
-def texelDump (p : Pos) (k : Sq) : String :=
+def texelDump (p : Pos) (k ok : Sq) : String :=
   let inChk := Texel.inCheckK p.b p.wtm k
   let ps := Texel.pseudoLegalMoves p k
   let lv := ps.map fun m => Texel.isLegal p k m inChk
+  let gv := ps.map fun m => Texel.givesCheck p ok m
   let rm := Texel.removeIllegal p k ps
-  joinSecs [b2s inChk, "P", showOrdered ps, "L", showBits lv, "R", showOrdered rm]
+  let ev := if inChk then Texel.checkEvasions p k else []
+  joinSecs [b2s inChk, "P", showOrdered ps, "L", showBits lv, "G", showBits gv, "R", showOrdered rm,
+    "E", showOrdered ev, "C", showOrdered (Texel.pseudoLegalCaptures p k), "K", showOrdered (Texel.pseudoLegalCapturesAndChecks p k ok)]
 
 def modelAtk (pc : Nat) (s : Sq) (occ : Nat) : PosImpl.BB :=
   let o : PosImpl.BB := BitVec.ofNat 64 occ
@@ -125,9 +129,9 @@ def step (args : List String) : String :=
     match readFEN (fenOf rest) with
     | .error e => "err " ++ e.toString
     | .ok p =>
-      match kingSq p.b p.wtm with
-      | none => "err no-king"
-      | some k => if Texel.genWFb p k then texelDump p k else "err hypotheses-of-the-generator-theorems-fail"
+      match kingSq p.b p.wtm, kingSq p.b (!p.wtm) with
+      | some k, some ok => if Texel.genWFb p k then texelDump p k ok else "err hypotheses-of-the-generator-theorems-fail"
+      | _, _ => "err no-king"
   | ["tatk", pc, s, occ] =>
     match parseNat? pc, parseNat? s, parseNat? occ with
     | some pc, some s, some occ =>
